@@ -132,6 +132,15 @@ struct C02Delivery : Monitor {
 		else if (!w->clients.empty() && &t == w->clients[0].task) del_c.push_back({p, w->S.now});
 	}
 
+	// runs of the hs job in which every reply to the downstream codec switch ('o') was held back for 6-20 s while the client had a
+	// codec forced with -O: an open known finding (known_findings.json) has its own clause, so that any other loss stays a new violation
+	std::string lost_clause() const
+	{
+		const J &f = w->cfg["faults"];
+		bool held_o = f.k == J::OBJ && f.gets("hold_cmd") == "o" && w->cfg.getb("hs");
+		bool forced = w->cfg["clients"].k == J::ARR && !w->cfg["clients"].a.empty() && !w->cfg["clients"].a[0].gets("downenc").empty();
+		return held_o && forced ? "recover.lost.held_o_forced_O" : "recover.lost";
+	}
 	void cmp_clean(const char *dir, std::vector<Acc> &acc, std::vector<Del> &del)
 	{
 		// Packets accepted up to D before the end of the run must have been delivered: the
@@ -209,7 +218,7 @@ struct C02Delivery : Monitor {
 			int cnt = 0; uint64_t tdel = 0; size_t idx = 0;
 			for (size_t j = 0; j < del.size(); j++) if (del[j].pkt == a->pkt) { if (!cnt) { tdel = del[j].t; idx = j; } cnt++; }
 			char b[200];
-			if (cnt == 0) { snprintf(b, sizeof b, "%s: ser=%llu accepted at %.3fs never delivered", dir, (unsigned long long)a->ser, a->t / 1e6); w->S.violate("C02", "recover.lost", b); return; }
+			if (cnt == 0) { snprintf(b, sizeof b, "%s: ser=%llu accepted at %.3fs never delivered", dir, (unsigned long long)a->ser, a->t / 1e6); w->S.violate("C02", lost_clause(), b); return; }
 			if (cnt > 1) { snprintf(b, sizeof b, "%s: ser=%llu delivered %d times", dir, (unsigned long long)a->ser, cnt); w->S.violate("C02", "recover.duplicate", b); return; }
 			if (tdel > a->t + D) { snprintf(b, sizeof b, "%s: ser=%llu delivered after %.1fs", dir, (unsigned long long)a->ser, (tdel - a->t) / 1e6); w->S.violate("C02", "recover.late", b); return; }
 			if (di && idx < last_idx_t) { snprintf(b, sizeof b, "%s: ser=%llu delivered out of order", dir, (unsigned long long)a->ser); w->S.violate("C02", "recover.order", b); return; }
